@@ -414,6 +414,14 @@ class Nodes:
 
         Raises:  N/A
         """
+        if isinstance(value, (
+            DoubleQuotedScalarString, SingleQuotedScalarString,
+            FoldedScalarString, LiteralScalarString
+        )):
+            # Text which the YAML source marks as text stays text, however
+            # much it looks like a number or a Boolean
+            return value
+
         wrapped_value = value
         ast_value = Nodes.typed_value(value)
         typ = type(ast_value)
